@@ -12,7 +12,8 @@ Op lines (see `harness/hx-progacct/src/ops.rs` for the implementation side):
 setup <zc|fix|var> <progid:hex32> <disc:hex> <owner:hex32> <writable:0|1> <data:hex>   -> ok
 borrow none|shared|shared7|excl   -> ok           (data borrow held while the following ops run)
 decode                            -> ok | ok none | ok <ser v> | err:…
-validate | data | data_mut | cleanup | refund | close | close_nr | serialize | reload | get
+validate | data | data_mut | cleanup | close | close_nr | serialize | reload | get
+{normalize|receive|refund}[_c|_cm]   rent cleanups: explicit argument / cached / cache empty
 set <ser v> | mutate <ser v> | client | bytes | next | chown <hex32> | poke <off> <hex>
 ```
 -/
@@ -20,7 +21,7 @@ open Common Common.Proto Account.Validate Account.Borsh
 
 namespace Account.Driver.ProgAcct
 
-inductive Kind | zc | fix | var
+inductive Kind | zc | fix | var | zc0 | unit
 deriving Repr, DecidableEq
 
 structure St where
@@ -33,16 +34,20 @@ structure St where
   drained : Bool
 
 def parseKind : String → Option Kind
-  | "zc" => some .zc | "fix" => some .fix | "var" => some .var | _ => none
+  | "zc" => some .zc | "fix" => some .fix | "var" => some .var
+  | "zc0" => some .zc0 | "unit" => some .unit | _ => none
 
-def kindIdx : Kind → Nat | .zc => 0 | .fix => 1 | .var => 2
+/-- First discriminant byte of the kind's account type. -/
+def kindBase : Kind → Nat | .zc => 0x21 | .fix => 0x61 | .var => 0xa1 | .zc0 => 0xe1 | .unit => 0x31
+
+def Kind.isZc : Kind → Bool | .zc => true | .zc0 => true | _ => false
 
 /-- The harness programs: one per discriminant width, id `[0x50, W, 0x11, 0x11, …]`. -/
 def progIdOf (W : Nat) : List Nat := [0x50, W] ++ List.replicate 30 0x11
 /-- Discriminant of the account type of kind `k` in the width-`W` program. -/
-def discOf (W : Nat) (k : Kind) : List Nat := (List.range W).map (fun j => 0x21 + 0x40 * kindIdx k + 5 * j)
+def discOf (W : Nat) (k : Kind) : List Nat := (List.range W).map (fun j => (kindBase k + 5 * j) % 256)
 
-def widths : List Nat := [0, 1, 2, 3, 4, 8, 16]
+def widths : List Nat := [0, 1, 2, 3, 4, 5, 6, 7, 8, 12, 16, 24, 32]
 
 /-- The account types that exist in the harness (anything else is `bad-op` on both sides); the
 width-1 program has an extra zero-copy type whose discriminant IS the closed marker. -/
@@ -52,6 +57,7 @@ def knownType (k : Kind) (progId disc : List Nat) : Bool :=
 
 def codecOf : Kind → Codec Val
   | .var => varCodec
+  | .unit => unitCodec
   | _ => fixCodec
 
 def showErr : Err → String
@@ -63,6 +69,7 @@ def showErr : Err → String
   | .invalidRealloc => "err:InvalidRealloc"
   | .ioError => "err:Custom9001"
   | .expectedWritable => "err:Custom1000"
+  | .emptyFunderCache => "err:Custom1004"
   | .emptyRecipientCache => "err:Custom1005"
   | .insufficientFunds => "err:InsufficientFunds"
 
@@ -87,7 +94,7 @@ def bad (s : Option St) : Option St × String := (s, "bad-op")
 /-- Ops that need a set-up account. -/
 def stepSt (s : St) (toks : List String) : Option St × String :=
   let c := codecOf s.kind
-  let borsh : Bool := s.kind != .zc
+  let borsh : Bool := !s.kind.isZc
   match toks with
   | ["borrow", m] =>
     let b : Option Borrow := match m with
@@ -110,12 +117,12 @@ def stepSt (s : St) (toks : List String) : Option St × String :=
     | some _ => (some s, showUnit (validateAccountInfo s.t s.a))
     | none => bad (some s)
   | ["data"] =>
-    match s.wrapper, s.kind with
-    | some _, .zc => (some s, showView (dataView s.t s.a))
+    match s.wrapper, s.kind.isZc with
+    | some _, true => (some s, showView (dataView s.t s.a))
     | _, _ => bad (some s)
   | ["data_mut"] =>
-    match s.wrapper, s.kind with
-    | some _, .zc => (some s, showView (dataMutView s.t s.a))
+    match s.wrapper, s.kind.isZc with
+    | some _, true => (some s, showView (dataMutView s.t s.a))
     | _, _ => bad (some s)
   | [op] =>
     if op = "bytes" then (some s, s!"{s.a.data.length} {toHex s.a.data}")
@@ -136,20 +143,37 @@ def stepSt (s : St) (toks : List String) : Option St × String :=
         match r with
         | .ok b' => (some { s with a := b'.acct, wrapper := some b'.val, drained := s.drained || drain }, "ok")
         | .error e => (some s, showErr e)
+      -- a cleanup leaves its state even when it fails (e.g. `NormalizeRent(())` without a funder
+      -- has already written the value back)
+      let finFull (r : BAcct Val × Except Err Unit) (drain : Bool) : Option St × String :=
+        let b' := r.1
+        match r.2 with
+        | .ok () => (some { s with a := b'.acct, wrapper := some b'.val, drained := s.drained || drain }, "ok")
+        | .error e => (some { s with a := b'.acct, wrapper := some b'.val }, showErr e)
+      let rentOf (name : String) : Option RentOp :=
+        if name = "normalize" then some .normalize
+        else if name = "receive" then some .receive
+        else if name = "refund" then some .refund else none
       let cl : Option (Cleanup) :=
         if op = "cleanup" then some .dflt
-        else if op = "refund" then some (.refundRent s.drained)
         else if op = "close" then some (.close true)
         else if op = "close_nr" then some (.close false)
-        else none
+        else
+          match op.splitOn "_" with
+          | [n] => (rentOf n).map (fun r => .rent r .arg s.drained)
+          | [n, "c"] => (rentOf n).map (fun r => .rent r .cached s.drained)
+          | [n, "cm"] => (rentOf n).map (fun r => .rent r .cachedMissing s.drained)
+          | _ => none
       match cl with
       | some k =>
-        if borsh then fin (cleanup c s.t k b) (k == .close true)
+        if borsh then finFull (cleanupFull c s.t k b) (k == .close true)
         else
-          -- `Account<T>`: the default cleanup writes nothing, the rent variant touches lamports only
+          -- `Account<T>`: no write-back in any variant; the rent variants touch lamports only
           match k with
           | .dflt => (some s, "ok")
-          | .refundRent d => (some s, if d then showErr .insufficientFunds else "ok")
+          | .rent r who d =>
+            if who = .cachedMissing then (some s, showErr r.missing)
+            else (some s, showUnit (rentTail r d))
           | .close r =>
             match cleanupClose s.t r s.a with
             | .ok a' => (some { s with a := a', drained := true }, "ok")
@@ -162,9 +186,7 @@ def stepSt (s : St) (toks : List String) : Option St × String :=
           | some v => (some s, "ok " ++ toHex (c.ser v))
           | none => (some s, "panic")
         else if op = "reload" then
-          match reload c s.t b with
-          | none => (some s, "panic")
-          | some r => fin r false
+          fin (reload c s.t b) false
         else bad (some s)
   | ["set", h] =>
     match s.wrapper, borsh, (parseHex h).bind c.de with
